@@ -9291,3 +9291,83 @@ pub mod benches {
 		}));
 	}
 }
+
+/// Thin wrappers around the crate-private fee arithmetic of the router.
+#[cfg(feature = "_verif_hooks")]
+pub mod verif_hooks_router {
+	use super::*;
+	use bitcoin::secp256k1::SecretKey;
+
+	/// [`compute_fees`](super::compute_fees).
+	pub fn compute_fees(amount_msat: u64, channel_fees: RoutingFees) -> Option<u64> {
+		super::compute_fees(amount_msat, channel_fees)
+	}
+
+	/// [`compute_fees_saturating`](super::compute_fees_saturating).
+	pub fn compute_fees_saturating(amount_msat: u64, channel_fees: RoutingFees) -> u64 {
+		super::compute_fees_saturating(amount_msat, channel_fees)
+	}
+
+	/// Runs `PaymentPath::update_value_and_recompute_fees(value_msat)` on a path of private hops.
+	///
+	/// Each hop is given as its fees, its `htlc_minimum_msat` and the `hop_use_fee_msat` it holds
+	/// before the call. Returns the `fee_msat` of each hop afterwards and the value returned by
+	/// the call.
+	pub fn update_value_and_recompute_fees(
+		hops: &[(RoutingFees, u64, u64)], value_msat: u64,
+	) -> (Vec<u64>, u64) {
+		let secp_ctx = Secp256k1::new();
+		let keys: Vec<PublicKey> = (0..hops.len() + 1)
+			.map(|i| {
+				let mut sk = [1u8; 32];
+				sk[0] = (i / 200) as u8 + 1;
+				sk[31] = (i % 200) as u8 + 1;
+				PublicKey::from_secret_key(&secp_ctx, &SecretKey::from_slice(&sk).unwrap())
+			})
+			.collect();
+		let node_ids: Vec<NodeId> = keys.iter().map(|k| NodeId::from_pubkey(k)).collect();
+		let hints: Vec<RouteHintHop> = hops
+			.iter()
+			.enumerate()
+			.map(|(i, (fees, htlc_minimum_msat, _))| RouteHintHop {
+				src_node_id: keys[i],
+				short_channel_id: i as u64 + 1,
+				fees: *fees,
+				cltv_expiry_delta: 0,
+				htlc_minimum_msat: Some(*htlc_minimum_msat),
+				htlc_maximum_msat: None,
+			})
+			.collect();
+		let mut path = PaymentPath {
+			hops: hops
+				.iter()
+				.enumerate()
+				.map(|(i, (_, _, hop_use_fee_msat))| {
+					(
+						PathBuildingHop {
+							candidate: CandidateRouteHop::PrivateHop(PrivateHopCandidate {
+								hint: &hints[i],
+								target_node_id: &node_ids[i + 1],
+								source_node_counter: i as u32,
+								target_node_counter: i as u32 + 1,
+							}),
+							was_processed: false,
+							is_first_hop_target: false,
+							is_last_hop_target: false,
+							total_fee_msat: 0,
+							path_htlc_minimum_msat: 0,
+							path_penalty_msat: 0,
+							fee_msat: 0,
+							next_hops_fee_msat: 0,
+							hop_use_fee_msat: *hop_use_fee_msat,
+							value_contribution_msat: 0,
+						},
+						NodeFeatures::empty(),
+					)
+				})
+				.collect(),
+		};
+		let contribution = path.update_value_and_recompute_fees(value_msat);
+		(path.hops.iter().map(|(h, _)| h.fee_msat).collect(), contribution)
+	}
+}
